@@ -27,7 +27,7 @@ class RunResult:
         return R.digest((self.steps, [(i, p, c, t) for i, p, c, t, _ in self.violations]))
 
 
-MUTATING = {"add", "move", "remove", "remove_children", "clear", "del", "sort",
+MUTATING = {"bulk", "add", "move", "remove", "remove_children", "clear", "del", "sort",
             "set_data", "filter", "restart", "copy", "copy_to"}
 
 
@@ -125,6 +125,7 @@ PROBE_RULES = {
     "copy_filtered": ("copy/filtered", "ok"),
     "copy_to": ("copy_to", "ok"),
     "callback_fault_fired": (None, "fault"),
+    "bulk_boundary": ("bulk/", "ok"),
     "visit_skip": (("visit/", "SKIP"), "ok"),
     "visit_stop": (("visit/", "STOP"), "ok"),
     "iter_zigzag": ("iter/zigzag", "ok"),
